@@ -521,6 +521,7 @@ def _in_flow_layout(context, box, index, child, new_children, page_is_empty,
 
     if not getattr(child, 'first_letter_style', None):
         child.first_letter_style = first_letter_style
+    child_position_y = child.position_y
     (new_child, resume_at, next_page, next_adjoining_margins,
      collapsing_through, max_lines) = block_level_layout(
          context, child, bottom_space, skip_stack,
@@ -552,6 +553,7 @@ def _in_flow_layout(context, box, index, child, new_children, page_is_empty,
                     context, [new_child], absolute_boxes, fixed_boxes)
                 bottom_space += (
                     new_child.padding_bottom + new_child.border_bottom_width)
+                child.position_y = child_position_y
                 (new_child, resume_at, next_page, next_adjoining_margins,
                  collapsing_through, max_lines) = block_level_layout(
                      context, child, bottom_space, skip_stack,
